@@ -186,6 +186,25 @@ def borrow_programs():
          "{ let a = tail(&data); let b = (inc)(&mut slot); let a = (|s: &[i32]| s.len())(a); let b = (dbl)(b); (a, b) }",
          "\nformat!(\"{:?} slot={}\", x, slot)"),
     ]
+    more += [
+        # a local mutated inside a wrapper's inner chain and read again in a later step (all inside the async block): the wrapper
+        # closure must borrow it, not take a private copy
+        ("async-wrapper-shared-local",
+         "let mut hits = 0i32;\n",
+         "bo(join_async! { ready(Some(lg(\"0.0.i\", 1))) |> >>> |> |v: i32| { hits += 1; v + 1 } <<< ~|> |o: Option<i32>| (o, hits), ready(2) })",
+         "{ let a = Some(lg(\"0.0.i\", 1)).map(|v: i32| { hits += 1; v + 1 }); let b = 2; let a = (a, hits); (a, b) }",
+         "\nformat!(\"{:?}\", x)"),
+        ("async-try-wrapper-shared-local",
+         "let mut hits = 0i32;\n",
+         "bo(try_join_async! { ready(Ok::<Option<i32>, i32>(Some(1))) |> >>> |> >>> |> |v: i32| { hits += 10; v + 1 } <<< <<< ~|> |r: Result<Option<i32>, i32>| r.map(|o| (o, hits)), ready(Ok::<i32, i32>(2)) })",
+         "{ let a = Ok::<Option<i32>, i32>(Some(1)).map(|w| w.map(|v: i32| { hits += 10; v + 1 })); let b = Ok::<i32, i32>(2); let a = a.map(|o| (o, hits)); match (a, b) { (Ok(a), Ok(b)) => Ok::<_, i32>((a, b)), (Err(e), _) | (_, Err(e)) => Err(e) } }",
+         "\nformat!(\"{:?}\", x)"),
+        ("sync-wrapper-shared-local",
+         "let mut hits = 0i32;\n",
+         "join! { Some(lg(\"0.0.i\", 1)) |> >>> -> |v: i32| { hits += 1; v + 1 } <<< ~-> |o: Option<i32>| (o, hits), 2 }",
+         "{ let a = Some(lg(\"0.0.i\", 1)).map(|v: i32| { hits += 1; v + 1 }); let b = 2; let a = (a, hits); (a, b) }",
+         "\nformat!(\"{:?}\", x)"),
+    ]
     for tid, pro, d, r, epi in more:
         progs.append(Prog("borrow/%s" % tid, pro + "let x = %s;" % r + epi, pro + "let x = %s;" % d + epi, [[0]], "Full", meta={"macro": d.split("!")[0], "dsl": d, "ref": r}))
     return progs
